@@ -214,4 +214,17 @@ META = {
         minimums={"quick": {"logical_models": 250, "loads": 4000, "bad_loads": 5000, "dumps": 1200, "converters": 1500, "distinct_nontrivial": 8000}},
         assumptions=["kinds are compared with each other, not with a reference model; a defect shared by all kinds is invisible here (C03/C08 cover it)"],
     ),
+    "C18": _m(
+        "one case = one generated class: Enum (int / str / mixed / tuple / unhashable / float-bool values, IntEnum, str mixin, aliases; 2-5 members) under "
+        "enum_by_exact_value, enum_by_name (5 name styles x map none / by name / by member) and enum_by_value, or Flag / IntFlag (1-6 bits; with and without a zero member, "
+        "compound and multi-bit-only members, aliases) under flag_by_exact_value and flag_by_member_names with 10 sampled (thorough: all 96) points of the option cube "
+        "(allow_single_value x allow_duplicates x allow_compound x 4 name styles x 3 map forms); EVERY member and EVERY constructible flag combination is dumped and reloaded; "
+        "candidate data (all dumps, case / spelling neighbours, wrong types, out-of-range ints, duplicates, unknown names, unhashables, mappings, single strings) must be accepted "
+        "exactly when they are representations and rejected with LoadError otherwise (==-look-alikes are unspecified); documented refusals for skipped / negative bits. "
+        "distinct = (class, provider configuration, member or candidate, mode)",
+        cases=(40, 600), budget=(50, 420),
+        minimums={"quick": {"enum_classes": 120, "flag_classes": 120, "enum_roundtrips": 1500, "flag_roundtrips": 20000, "enum_candidates": 20000, "flag_candidates": 40000,
+                            "flag_option_combinations": 1000, "documented_refusals": 2, "distinct_nontrivial": 30000}},
+        assumptions=["bits that exist only inside a multi-bit member cannot be named with allow_compound=False: those combinations are outside the bijection's domain for that configuration"],
+    ),
 }
